@@ -487,7 +487,29 @@ class Interp(Ops):
         return PyList(self.comprehension(node.elt, node.generators, node))
 
     def ev_GeneratorExp(self, node):
+        rep = self._repeat_comprehension(node)
+        if rep is not None:
+            return rep
         return PyList(self.comprehension(node.elt, node.generators, node))
+
+    def _repeat_comprehension(self, node):
+        """`x for _ in xrange(n)` with a symbolic n and an element that does not mention the loop variable: the list
+        [x] * n (symbolic length)"""
+        from .builtins import SymRange
+        if len(node.generators) != 1:
+            return None
+        g = node.generators[0]
+        if g.ifs or not isinstance(g.target, ast.Name):
+            return None
+        if any(isinstance(n, ast.Name) and n.id == g.target.id for n in ast.walk(node.elt)):
+            return None
+        if not (isinstance(g.iter, ast.Call) and isinstance(g.iter.func, ast.Name) and g.iter.func.id in ("xrange", "range")
+                and len(g.iter.args) == 1):
+            return None
+        it = self.ev(g.iter)
+        if not isinstance(it, SymRange):
+            return None
+        return self.list_repeat([self.ev(node.elt)], it.hi, node)
 
     def ev_SetComp(self, node):
         return PySet(self.comprehension(node.elt, node.generators, node))
